@@ -98,3 +98,79 @@ theorem obsolete_never_returned (ts : List Term) (hd : DisjointIds ts) (k : Str)
   simpa using (List.mem_filter.mp this).2
 
 end Hpv.Onto
+
+namespace Hpv.Onto
+open Hpv.Sim
+
+theorem keys_upsert {β} (k : Str) (v : β) (l : List (Str × β)) (x : Str) :
+    x ∈ (upsert k v l).map Prod.fst ↔ x = k ∨ x ∈ l.map Prod.fst := by
+  induction l with
+  | nil => simp [upsert]
+  | cons p rest ih =>
+    obtain ⟨k', v'⟩ := p
+    unfold upsert
+    by_cases h : k' = k
+    · subst h; simp
+    · simp only [h, if_false, List.map_cons, List.mem_cons, ih]
+      constructor
+      · rintro (h1 | h1 | h1)
+        · exact Or.inr (Or.inl h1)
+        · exact Or.inl h1
+        · exact Or.inr (Or.inr h1)
+      · rintro (h1 | h1 | h1)
+        · exact Or.inr (Or.inl h1)
+        · exact Or.inl h1
+        · exact Or.inr (Or.inr h1)
+
+theorem nodup_upsert {β} (k : Str) (v : β) (l : List (Str × β)) (h : (l.map Prod.fst).Nodup) :
+    ((upsert k v l).map Prod.fst).Nodup := by
+  induction l with
+  | nil => simp [upsert]
+  | cons p rest ih =>
+    obtain ⟨k', v'⟩ := p
+    simp only [List.map_cons, List.nodup_cons] at h
+    unfold upsert
+    by_cases hk : k' = k
+    · subst hk; simp only [if_true, List.map_cons, List.nodup_cons]; exact h
+    · simp only [hk, if_false, List.map_cons, List.nodup_cons]
+      refine ⟨?_, ih h.2⟩
+      rw [keys_upsert]
+      rintro (h1 | h1)
+      · exact hk h1
+      · exact h.1 h1
+
+theorem lookup_none_iff {β} (k : Str) (l : List (Str × β)) : lookup k l = none ↔ k ∉ l.map Prod.fst := by
+  induction l with
+  | nil => simp [lookup]
+  | cons p rest ih =>
+    obtain ⟨k', v'⟩ := p
+    unfold lookup
+    by_cases h : k' = k
+    · subst h; simp
+    · simp only [h, if_false, ih, List.map_cons, List.mem_cons, not_or]
+      exact ⟨fun h1 => ⟨fun e => h e.symm, h1⟩, fun h1 => h1.2⟩
+
+theorem nodup_keys_foldl_ins (kvs : List (Str × Term)) (m : List (Str × Term)) (h : (m.map Prod.fst).Nodup) :
+    ((kvs.foldl ins m).map Prod.fst).Nodup := by
+  induction kvs generalizing m with
+  | nil => exact h
+  | cons kv rest ih => exact ih _ (nodup_upsert kv.1 kv.2 m h)
+
+/-- the term-id iterator lists each key of the map once -/
+theorem termIds_nodup (ts : List Term) : (termIds ts).Nodup := by
+  unfold termIds
+  rw [mkMap_eq]
+  exact nodup_keys_foldl_ins _ [] (by simp)
+
+theorem mem_termIds (ts : List Term) (k : Str) : k ∈ termIds ts ↔ (getTerm ts k).isSome := by
+  unfold termIds getTerm
+  cases h : lookup k (mkMap ts) with
+  | none => simp [(lookup_none_iff k _).mp h]
+  | some t =>
+    simp only [Option.isSome_some, iff_true]
+    apply Classical.byContradiction
+    intro hn
+    rw [(lookup_none_iff k _).mpr hn] at h
+    cases h
+
+end Hpv.Onto
